@@ -47,7 +47,9 @@ TraceParse ==
   /\ LET ev == Log[l]
          r == RP_Parse(w, B, rp, fed, ev.n)
          st == r.st
-     IN /\ ev.n <= Free(B, rp, fed)
+     \* (how many unparsed bytes the implementation keeps in its input buffer - and so how much room it offers - is its own
+     \*  choice, e.g. it may move a partial pair header to its side buffer early; the hard bound is the buffer itself)
+     IN /\ (Bd("free") => ev.n <= Free(B, rp, fed)) /\ ev.n <= B
         /\ rp' = st /\ fed' = fed + ev.n
         /\ (Bd("done") => ev.done = Final(st))
         /\ (Bd("out") => ev.out = r.out)
